@@ -21,7 +21,7 @@ THRESH = 10 ** 7
 BOUNDS = {
     'quick': 'density grids of shape (2,1,1), (2,2,1), (3,1,1): voxel counts any integers in [0,1000] with at least one > 0; '
              'temperature any real in (0, 100000]',
-    'thorough': 'grids up to (2,2,2) (8 voxels), counts in [0,10^6], temperature in (0, 10^6]',
+    'thorough': 'free-energy grids up to 5 voxels, counts in [0,10^6], temperature in (0, 10^6]; graph builder on grids up to (2,2,2)',
 }
 OUTSIDE = ['accuracy of libm log/exp (LOG/EXP are uninterpreted with the listed axioms)', 'grids above the bound']
 ASSUMPTIONS = [
@@ -173,7 +173,7 @@ def jobs(tier, seed):
     if tier == 'quick':
         cfg = [((2, 1, 1), 1000, 100000), ((2, 2, 1), 1000, 100000), ((3, 1, 1), 1000, 100000)]
     else:
-        cfg = [((2, 1, 1), 10 ** 6, 10 ** 6), ((2, 2, 1), 10 ** 6, 10 ** 6), ((3, 2, 1), 10 ** 6, 10 ** 6), ((2, 2, 2), 10 ** 6, 10 ** 6)]
+        cfg = [((2, 1, 1), 10 ** 6, 10 ** 6), ((2, 2, 1), 10 ** 6, 10 ** 6), ((3, 1, 1), 10 ** 6, 10 ** 6), ((1, 1, 4), 10 ** 5, 10 ** 6), ((5, 1, 1), 1000, 10 ** 5)]
     js = [dict(name='fe_' + 'x'.join(map(str, sh)), fn='fe_job', params=dict(shape=list(sh), cmax=c, tmax=t)) for sh, c, t in cfg]
     gshapes = [(2, 1, 1), (2, 2, 1)] if tier == 'quick' else [(2, 1, 1), (2, 2, 1), (3, 1, 1), (2, 2, 2)]
     for sh in gshapes:
